@@ -166,27 +166,30 @@ Definition bfs_dist (fuel : nat) (convs : list conv) (srcs : list nat) (to : nat
 (* the boolean statements checked on the table (ktos = known operators, t = target, p = the path of the model) *)
 Definition is_nil {A} (l : list A) : bool := match l with [] => true | _ => false end.
 
-Definition valid_at (fuel : nat) (convs : list conv) (ktos : list nat) (t : nat) : bool :=
-  match mfront_path fuel convs ktos t with
-  | None => false
-  | Some p => is_nil p || (valid_chain_from_set convs ktos t p && simple_path ktos p)
+(* p = the path of the model for the known set ktos and the target t *)
+Definition valid_p (convs : list conv) (ktos : list nat) (t : nat) (p : path) : bool :=
+  is_nil p || (valid_chain_from_set convs ktos t p && simple_path ktos p).
+
+Definition complete_p (fuel : nat) (convs : list conv) (ktos : list nat) (t : nat) (p : path) : bool :=
+  mem t ktos || Bool.eqb (negb (is_nil p)) (reachable fuel convs ktos t).
+
+Definition shortest_p (fuel : nat) (convs : list conv) (ktos : list nat) (t : nat) (p : path) : bool :=
+  mem t ktos ||
+  match bfs_dist fuel convs ktos t with
+  | None => is_nil p
+  | Some d => Nat.eqb (length p) d
   end.
 
-Definition complete_at (fuel : nat) (convs : list conv) (ktos : list nat) (t : nat) : bool :=
-  match mfront_path fuel convs ktos t with
+(* P ktos t (path of the model) for every target of the flag list, the paths being enumerated once per known set;
+   false when the fuel is exhausted *)
+Definition check_set (fuel : nat) (convs : list conv) (flags : list nat) (P : list nat -> nat -> path -> bool)
+  (ktos : list nat) : bool :=
+  match mfront_paths fuel convs ktos with
   | None => false
-  | Some p => mem t ktos || Bool.eqb (negb (is_nil p)) (reachable fuel convs ktos t)
+  | Some ps => forallb (fun t => P ktos t (get_shortest_path ps t)) flags
   end.
-
-Definition shortest_at (fuel : nat) (convs : list conv) (ktos : list nat) (t : nat) : bool :=
-  match mfront_path fuel convs ktos t with
-  | None => false
-  | Some p => mem t ktos ||
-              match bfs_dist fuel convs ktos t with
-              | None => is_nil p
-              | Some d => Nat.eqb (length p) d
-              end
-  end.
+Definition check_all (fuel : nat) (convs : list conv) (flags : list nat) (sets : list (list nat))
+  (P : list nat -> nat -> path -> bool) : bool := forallb (check_set fuel convs flags P) sets.
 
 (* all singletons and all ordered pairs (in the order of the list) of known operators *)
 Fixpoint pairs_of (l : list nat) : list (list nat) :=
@@ -195,6 +198,3 @@ Fixpoint pairs_of (l : list nat) : list (list nat) :=
   | a :: r => map (fun b => [a; b]) r ++ pairs_of r
   end.
 Definition singletons (l : list nat) : list (list nat) := map (fun a => [a]) l.
-
-Definition forall_known_target (flags : list nat) (sets : list (list nat)) (P : list nat -> nat -> bool) : bool :=
-  forallb (fun ktos => forallb (fun t => P ktos t) flags) sets.
